@@ -13,7 +13,7 @@ RULE = ('pairs of HRGs built from shared skeletons (same node ids and nontermina
         'skeletons present in one grammar only, nonterminal names drawn from a pool with clashes (X + "Y,Z" vs "X,Y" + Z, a terminal '
         'called "<X,Y>"), terminal-label conflicts, shared terminal edge ids and mixed explicit/implicit edge ids in separate streams; '
         'non-trivial = at least one conjoinable rule pair with a nonterminal edge')
-ASSUMPTIONS = ['derivation correspondence is checked by counting derivations to depth 3 (conjunction) against paired derivations; the bijection is not a theorem yet']
+ASSUMPTIONS = ['the derivation bijection is a theorem about the model (C17b, hypothesis Cj.wfHRG evaluated on every generated grammar); on the implementation derivations are additionally counted to depth 3 against paired derivations']
 
 NT_NAMES = ['X', 'Y', 'Z', 'X,Y', 'Y,Z', 'S', 'T']
 
@@ -262,6 +262,14 @@ def run(ctx):
         meta.append((case, outcome, conj))
         if conj is not None:
             g1s[id(conj)], g2s[id(conj)] = g1, g2
+    # the hypothesis of the derivation-correspondence theorem (C17b.conjoin_derivations_bijection): Cj.wfHRG must hold of
+    # every grammar that can be built through the real API (Graph rejects duplicate edge ids)
+    wf_reqs = [f'C17.wf {c["g1"]}' for c, _, _ in meta] + [f'C17.wf {c["g2"]}' for c, _, _ in meta]
+    for i, rep in enumerate(ctx.driver.ask_many(wf_reqs)):
+        if isinstance(rep, Exception): raise rep
+        ctx.count('wfHRG.' + rep)
+        if rep != 'T':
+            ctx.disagree('Cj.wfHRG is false of a grammar built through the public API (hypothesis of the C17b theorems)', meta[i % len(meta)][0], 'built', rep)
     for (case, outcome, conj), rep in zip(meta, ctx.driver.ask_many(reqs)):
         if isinstance(rep, Exception): raise rep
         if rep in ('ValueError', 'TypeError'):
